@@ -14,6 +14,16 @@
 (*  op = "word":   Format, KmerOf(Format), ComplementOf, GCof of one word. *)
 (*  op = "kmerof": KmerOf of an arbitrary text.                            *)
 (*                                                                         *)
+(* The harness uses the index as a caller may: after every query that      *)
+(* hands out a slice or a map it overwrites every element of what it was   *)
+(* handed with e.sentinel, and when all questions have been asked it asks  *)
+(* them all again (fields with the suffix 2: frequencies before Build;     *)
+(* Check, both maps, the single look-ups and the array accessors after).   *)
+(* By the laws of KmerQueries.tla an answer is a function of the indexed   *)
+(* sequence only, so BOTH rounds are judged by the same operators against  *)
+(* the same declarative answers (Again(e) presents the second round to     *)
+(* CaseParts).                                                             *)
+(*                                                                         *)
 (* Short sequences ("tiny") are judged with Occ and DeclVisits directly,   *)
 (* longer ones through the table of window codes (last part of IndexExact,        *)
 (* checked by TLC in KmerMC).                                              *)
@@ -39,7 +49,7 @@ CaseParts(e) ==
       L == Len(s)
       codes == WinCodes(s, kk)
       occ(x) == IF e.tiny THEN Occ(s, kk, Dec(x, kk)) ELSE OccC(codes, x)
-      asc(x) == AscSeq(occ(x), 0, L - kk)
+      asc(x) == IF e.tiny THEN Answer(s, kk, x) ELSE AscSeq(occ(x), 0, L - kk)
       keys == {codes[p] : p \in DOMAIN codes} \ {-1}
       nwin == Cardinality({p \in DOMAIN codes : codes[p] >= 0})
       visits(st, en) == IF e.tiny THEN DeclVisits(s, kk, st, en) ELSE DeclVisitsC(codes, kk, st, en)
@@ -87,12 +97,37 @@ CaseParts(e) ==
       "ForEachKmerOf: the call-backs are not exactly the valid windows of the range in increasing order">>
   >>
 
+\* the second round of questions, presented as the first (the call-backs on sub-ranges are not repeated)
+Again(e) ==
+  [e EXCEPT !.freqok = e.freqok2, !.freqn = e.freqn2, !.freqsum = e.freqsum2, !.freq = e.freq2, !.fq = e.fq2,
+            !.chkok = e.chkok2, !.chkfound = e.chkfound2, !.indexn = e.indexn2, !.index = e.index2,
+            !.sindex = e.sindex2, !.q = e.q2, !.qt = e.qt2, !.ranges = <<>>]
+\* the log itself: the second round asks the single look-ups of the first, in the same order
+SameQuestions(e) ==
+  /\ [i \in 1..Len(e.q) |-> e.q[i][1]] = [i \in 1..Len(e.q2) |-> e.q2[i][1]]
+  /\ [i \in 1..Len(e.qt) |-> e.qt[i][1]] = [i \in 1..Len(e.qt2) |-> e.qt2[i][1]]
+  /\ [i \in 1..Len(e.fq) |-> e.fq[i][1]] = [i \in 1..Len(e.fq2) |-> e.fq2[i][1]]
+\* explanation added to a failure (evaluated only then): an answer holds the value the caller wrote
+Leaks(e) ==
+  LET has(list, j) == \E i \in 1..Len(list) : \E n \in 1..Len(list[i][j]) : list[i][j][n] = e.sentinel
+  IN has(e.index, 2) \/ has(e.sindex, 2) \/ has(e.q, 3) \/ has(e.qt, 3)
+Explain(e, why) ==
+  IF why # "" /\ Leaks(e)
+    THEN why \o " - an answer contains " \o ToString(e.sentinel) \o
+         ", which the caller wrote into a result it had been handed earlier: results share memory with the index"
+    ELSE why
+AgainPrefix == "asked again after the caller overwrote every slice and map it had been handed: "
+
 CaseReason(e) ==
   IF e.err # "" \/ ~NewOk(e)
     THEN IF e.panic # "" THEN "New panicked: " \o e.panic
          ELSE IF (e.err = "") = NewOk(e) THEN ""
          ELSE "New: error exactly when k is outside [MinKmerLen,16] or the sequence is shorter than k+1 expected, got '" \o e.err \o "'"
-    ELSE FirstBad(CaseParts(e))
+    ELSE LET first == FirstBad(CaseParts(e)) IN
+         IF first # "" THEN Explain(e, first)
+         ELSE IF ~SameQuestions(e) THEN "the second round of the log does not repeat the look-ups of the first (harness)"
+         ELSE LET second == FirstBad(CaseParts(Again(e))) IN
+              IF second = "" THEN "" ELSE AgainPrefix \o Explain(Again(e), second)
 
 \* outside the statement: the internal arrays against the operational model; errors on ranges that are
 \* inside the sequence; panics on texts that are not ASCII
@@ -110,6 +145,8 @@ CaseDrift(e) ==
                   /\ e.posarr = FnSeq(b.pos, L - kk + 1)
        IN AllBad(<<
             <<arrays, "finger/pos arrays differ from the operational model">>,
+            <<e.fpre2 = e.fpre /\ e.fpost2 = e.fpost /\ e.posarr2 = e.posarr,
+              "finger/pos arrays read again after the caller overwrote the copies it had been handed differ from the first reading">>,
             <<\A i \in 1..Len(e.ranges) :
                 (0 <= e.ranges[i][1] /\ e.ranges[i][1] <= e.ranges[i][2] /\ e.ranges[i][2] <= L
                  /\ e.ranges[i][1] + kk - 1 <= L) => e.ranges[i][3] = "",
